@@ -50,7 +50,7 @@ def run(rep, pid, cfgs, modes='ctl-unsafe,ctl-safe,sync', module='Gen', replay_c
         for item in cfgs:
             name, text = item[0], item[1]
             kw = item[2] if len(item) > 2 else {}     # e.g. simulate=N, depth=D: random behaviours instead of the exhaustive enumeration
-            r = vlib.run_tlc(module, name + '.cfg', extra_files={name + '.cfg': text}, timeout=3000, seed_=rep.seed, **kw)
+            r = vlib.run_tlc(module, name + '.cfg', extra_files={name + '.cfg': text}, timeout=6000, seed_=rep.seed, **kw)
             vlib.tlc_must_pass(r, name)
             if r.violation:
                 # an invariant of the reference model itself failed: the model is wrong, not the code
@@ -60,7 +60,7 @@ def run(rep, pid, cfgs, modes='ctl-unsafe,ctl-safe,sync', module='Gen', replay_c
             with open(gen, 'w') as fh:
                 fh.write(r.out)
             res_path = os.path.join(d, name + '.json')
-            hp = vlib.run_harness([replay_cmd, '-in', gen, '-out', res_path, '-modes', modes] + list(extra_args), timeout=3000, check=False)
+            hp = vlib.run_harness([replay_cmd, '-in', gen, '-out', res_path, '-modes', modes] + list(extra_args), timeout=9000, check=False)
             if hp.returncode != 0:
                 crash = vlib.library_crash(hp)
                 if crash is None:
